@@ -1617,6 +1617,11 @@ def merge_nested_comprehensions(source: str) -> str:
                     new_generators.append(comprehension)
                     continue
 
+                # Only the keys of an inner dict comprehension are kept
+                if isinstance(inner, ast.DictComp) and core.has_side_effect(inner.value):
+                    new_generators.append(comprehension)
+                    continue
+
                 tf = RenameTransformer(target_name_inner, comprehension.target.id)
 
                 # NodeTransformer edits in place, and comprehension.iter belongs to the tree
